@@ -309,6 +309,7 @@ class Server(object):
         self.delayed_results = {}        # phone -> [(upload dict, result stanza)]
         self.ask_keys_ids = 0
         self.auto_success = True
+        self.retry_participant_empty = False  # 1:1 retry receipts are relayed with participant="" (documented shape)
         self.skmsg_first = False             # group messages are relayed with the sender-key <enc> before the pairwise one
         self.reduced_success_once = set()    # phones whose next <success> lacks the attributes in reduced_success_drop
         self.reduced_success_drop = ("creation",)
@@ -580,6 +581,8 @@ class Server(object):
             self.to_client(author.split("@")[0], tup("receipt", out, list(t[2])))
         else:
             out["from"] = client.jid
+            if self.retry_participant_empty and a.get("type") == "retry":
+                out["participant"] = ""      # (the documented shape of a 1:1 retry receipt carries an empty participant attribute)
             self.to_client(to.split("@")[0], tup("receipt", out, list(t[2])))
 
     def on_ack(self, client, t):
@@ -952,6 +955,18 @@ class World(object):
             c = self.clients[who]
             t = self.server.outbound[who].pop(0)
             frame = refcodec.encode_canonical(t)
+            empties = [k for k, v in t[1].items() if v == ""]
+            if empties:
+                # an attribute that is present and empty: written as a raw string of length 0 (the canonical encoding of "" is
+                # the 'absent' token, which is another stanza)
+                ph = {k: "ZQ%dEMPTYZQ" % i for i, k in enumerate(empties)}
+                fb = bytearray(refcodec.encode_canonical((t[0], dict(t[1], **ph), t[2], t[3])))
+                for k, v in ph.items():
+                    i = bytes(fb).find(v.encode())
+                    if i >= 2 and fb[i - 2] == 252 and fb[i - 1] == len(v):
+                        fb[i - 2:i + len(v)] = bytearray([252, 0])
+                frame = bytes(fb)
+                self.count("delivered_with_empty_attribute")
             if t[0] == "success":
                 c.authed = True
             self.count("delivered:" + t[0])
